@@ -138,8 +138,14 @@ func Unsupported(why string)     { panic(abortRun{"unsupported: " + why}) }
 func Region(name string, c bool) {}
 func Symbolic() bool             { return false }
 
+var idleDelay = 150 * time.Millisecond
+
+// SetIdleDelay sets how long the native driver waits before playing the next
+// idle hook (must exceed the longest busy period of the code under test).
+func SetIdleDelay(ms int) { idleDelay = time.Duration(ms) * time.Millisecond }
+
 // OnIdle: natively the hooks are played by a driver goroutine, one every
-// 150 ms after the harness went quiet (time based quiescence).
+// idleDelay after the harness went quiet (time based quiescence).
 func OnIdle(f func()) {
 	mu.Lock()
 	hooks = append(hooks, f)
@@ -149,7 +155,7 @@ func OnIdle(f func()) {
 	if start {
 		go func() {
 			for {
-				time.Sleep(150 * time.Millisecond)
+				time.Sleep(idleDelay)
 				mu.Lock()
 				if len(hooks) == 0 {
 					driver = false
@@ -186,6 +192,7 @@ func runOne(c replayCase, fn func()) (res result) {
 	model = c.Model
 	nameCnt = map[string]int{}
 	hooks = nil
+	idleDelay = 150 * time.Millisecond
 	defer func() {
 		if r := recover(); r != nil {
 			switch x := r.(type) {
